@@ -219,8 +219,13 @@ let () =
             if not c08 then begin
               match rf with
               | "ok" :: _ -> if field rf "eq" <> Some "t" then mismatch !opno "api" (opname ^ ": the caller's grammar was modified (g.Equal(clone) is false after the call)")
-              | _ -> if res <> "PANIC:out-of-names" then mismatch !opno "api" (opname ^ ": " ^ res)
+              | r0 :: _ -> if r0 <> "PANIC:out-of-names" then mismatch !opno "api" (opname ^ ": " ^ res)
+              | [] -> ()
             end
+          | _ when (match rf with "LARGE" :: _ -> true | _ -> false) ->
+            bump "large_outputs_not_compared";
+            if not c08 && field rf "eq" <> Some "t" then
+              mismatch !opno "api" (opname ^ ": the receiver was modified (g.Equal(clone) is false after the call)")
           | _ ->
             bump ("op_" ^ opname);
             let order = match field rf "order" with Some s -> List.map name_of_string (parse_names s) | None -> [] in
@@ -315,8 +320,9 @@ let () =
                 | _ -> mismatch !opno "fidelity" (Printf.sprintf "%s: implementation returned a grammar, model says %s" opname mdesc))
              | _ ->
                (* PANIC / HANG *)
-               if res = "PANIC:out-of-names" then bump "out_of_names_panics";
-               mismatch !opno "api" (Printf.sprintf "%s: implementation %s, model %s" opname res mdesc))
+               let r0 = match rf with x :: _ -> x | [] -> res in
+               if r0 = "PANIC:out-of-names" then bump "out_of_names_panics";
+               mismatch !opno "api" (Printf.sprintf "%s: implementation %s, model %s" opname r0 mdesc))
         ) ops;
         if !changed then Hashtbl.replace nontrivial (Digest.string (head ^ String.concat ";" (List.map fst ops))) ();
         if !samples < 3 && !changed then begin
